@@ -22,6 +22,22 @@ PROPS = {
             "X: crash points (a write interrupted half-way); the file name/path text produced by get_file_full_path (template rendering)",
         ],
     },
+    "C10": {
+        "units": ["hooks", "config", "storage"],
+        "design_ref": "DESIGN.md section 5 C10",
+        "technique": "Verus function contracts over a ghost sequence of spawned processes; recursive spec for group expansion; ghost event trace for the file-write bracket",
+        "text": "Deductive proof that hooks::call spawns exactly the hooks whose type list contains the event type, in declaration order, "
+                "one at a time (spawn requires that no child is un-waited), stopping at the first hard failure; that each process is the "
+                "configured command with the arguments rendered in order, the data's environment and the configured redirections, failing "
+                "only on a non-zero exit without allow_failure; that names and nested groups expand in place in declaration order; and that "
+                "every file write is bracketed by the pre/post create-or-edit hooks.",
+        "assumptions": [
+            "T: async_process::Command / Stdio / Child as modelled in prelude/hooks_shims.rs; minijinja rendering is the uninterpreted render_spec",
+            "T: HookType obeys the hash-map key model (derived Hash/Eq)",
+            "X: environment precedence inside set_env (HashMap iteration) and the challenge / clean / post-operation hook data (certificate.rs, acme_proto.rs); "
+            "the split of a certificate's hooks into file hooks and certificate hooks (MainEventLoop::new); what the child processes do",
+        ],
+    },
     "C13": {
         "units": ["storage", "config"],
         "design_ref": "DESIGN.md section 5 C13",
